@@ -217,9 +217,10 @@ theorem afterSend_pc_plain (c : LoopCfg) (s : St) :
 
 /-- **One segment**: what is owed afterwards, plus one if the segment stored, is at most what was
     owed before. The only fact about reachable states used: at `beforeSend` a cause is outstanding
-    (`PcInv0`). -/
+    (`PcInv0`), and no snapshot is overdue (an armed force flag is a cause `owed` does not count:
+    `forced_iteration` below). -/
 theorem goRaw_owed {c : LoopCfg} {b : Bucket} {s : St} {i : In} {gh : Gh}
-    (hbs : s.pc = .beforeSend → ¬ Calm gh) :
+    (hbs : s.pc = .beforeSend → ¬ Calm gh) (hu : s.forceArmed = false) :
     owedOf (goRaw c b s i).1.pc (gh.afterGo b s i (goRaw c b s i).1.pc (goRaw c b s i).1.waiting) +
       (if storesB c s i then 1 else 0) ≤ owedOf s.pc gh := by
   have hc1 := cause_le_one gh
@@ -239,8 +240,7 @@ theorem goRaw_owed {c : LoopCfg} {b : Bucket} {s : St} {i : In} {gh : Gh}
   | sendStored who t =>
     rw [storesB_of_not_send (by simp [hpc])]
     rw [goRaw_sendStored hpc]
-    obtain ⟨p1, p2, p3⟩ := sendReturned_pc_plain c
-      { s with committed := s.lastBy.foldl (fun acc p => setAssoc acc p.1 p.2) s.committed } who t
+    obtain ⟨p1, p2, p3⟩ := sendReturned_pc_plain c (stored s) who t
     simp only
     rw [afterGo_plain (by simp [hpc]) (by simp [hpc]) (by simp [hpc]) (by simp [hpc]) p2 p3]
     exact owedOf_le_cause gh p1 p2
@@ -292,7 +292,7 @@ theorem goRaw_owed {c : LoopCfg} {b : Bucket} {s : St} {i : In} {gh : Gh}
       omega
   | beforeInfo =>
     rw [storesB_of_not_send (by simp [hpc])]
-    rw [goRaw_beforeInfo hpc, afterGo_info hpc]
+    rw [goRaw_beforeInfo_unarmed hpc hu, afterGo_info hpc]
     have hcg : cause { gh with sinceInfo := [] } = cause gh := cause_congr rfl rfl
     have hAS : ∀ s0 : St, owedOf (afterSend c s0).pc { gh with sinceInfo := [] } + 0 ≤ cause gh := by
       intro s0
@@ -364,7 +364,7 @@ theorem step_owed {c : LoopCfg} {g : G} (h0 : Inv0 c g) (e : Ev)
     obtain ⟨_, r2, _⟩ := relist_facts (goRaw c g.bucket g.st i).1 (goRaw c g.bucket g.st i).2
     unfold owed
     rw [h1, h3, r2]
-    refine goRaw_owed (fun hpc => ?_)
+    refine goRaw_owed (fun hpc => ?_) h0.unarmed
     have := h0.pcinv
     rw [hpc] at this
     exact this.1
@@ -706,6 +706,136 @@ theorem fleetStores_le (cs : Nat → LoopCfg) (n : Nat) (F : Fleet) (evs : List 
 
 theorem fleetRun_append (cs : Nat → LoopCfg) (F : Fleet) (l1 l2 : List (Nat × Ev)) :
     fleetRun cs F (l1 ++ l2) = fleetRun cs (fleetRun cs F l1) l2 := List.foldl_append
+
+/-! ## the forced periodic snapshot (`storage_force_snapshot_interval`) -/
+
+theorem relist_of_ne_top {s : St} {b : Bucket} (h : s.pc ≠ .top) : relist s b = s := by
+  unfold relist; rw [if_neg (fun hh => h hh.1)]
+
+theorem go_of_raw {c : LoopCfg} {b : Bucket} {s : St} {i : In} {s' : St} {b' : Bucket}
+    (h : goRaw c b s i = (s', b')) (hpc : s'.pc ≠ .top) : go c b s i = (s', b') := by
+  rw [go_eq, h]
+  simp only [relist_of_ne_top hpc]
+
+theorem othersOf_gos (l : List In) : othersOf (l.map Ev.go) = [] := by
+  induction l with
+  | nil => rfl
+  | cons a l ih => exact ih
+
+/-- segments one after the other, on state and bucket -/
+def goes (c : LoopCfg) : St × Bucket → List In → St × Bucket
+  | p, [] => p
+  | p, i :: is => goes c (go c p.2 p.1 i) is
+
+theorem runFrom_gos (c : LoopCfg) (g : G) (is : List In) :
+    ((runFrom c g (is.map Ev.go)).st, (runFrom c g (is.map Ev.go)).bucket) = goes c (g.st, g.bucket) is := by
+  induction is generalizing g with
+  | nil => rfl
+  | cons i is ih => exact ih (step c g (.go i))
+
+/-- the five segments of an iteration without loads that sends: `top`, `beforeInfo`,
+    `beforeSend`, `sendAfterTxn`, `sendStored` -/
+def iteration (i1 i2 i3 i4 i5 : In) : List Ev := [i1, i2, i3, i4, i5].map Ev.go
+
+/-- **A forced iteration.** At `top`, `lastSynced` caught up with `lastTxn` (nothing local to
+    publish), but a snapshot is overdue (`forceArmed`); the own instance is not waited for and the
+    start-up guard `hasDataAtStart ∨ lastTxn > 0` is open. Then an iteration in which the receiver
+    hands over nothing (`i1.next = none`), `SendOnce`'s transaction succeeds and fewer Store
+    attempts fail than the retry budget, stores exactly one snapshot — the dump of that
+    transaction —, the force flag is cleared, `lastSynced` has caught up again (`Synced`), and the
+    loop idles (or has ended, in only-once mode). -/
+theorem forced_iteration (c : LoopCfg) (g : G) (i1 i2 i3 i4 i5 : In) (r : SendRes)
+    (hpc : g.st.pc = .top) (hle : g.st.env.lastTxn ≤ g.st.lastSynced)
+    (harm : g.st.forceArmed = true) (hown : c.own ∉ g.st.waiting)
+    (hdata : g.st.hasDataAtStart = true ∨ g.st.env.lastTxn > 0)
+    (hro : c.txn.receiveOnly = false) (hnone : i1.next = none)
+    (hsend : sendOnce c.txn g.st.env i3.now 0 = .ok r) (hf : i4.fails < c.retryCount) :
+    (runFrom c g (iteration i1 i2 i3 i4 i5)).bucket =
+      g.bucket ++ [{ inst := c.own, ts := i3.now, snap := r.snap }] ∧
+    ownStores c g (iteration i1 i2 i3 i4 i5) = 1 ∧
+    (runFrom c g (iteration i1 i2 i3 i4 i5)).st.forceArmed = false ∧
+    Synced (runFrom c g (iteration i1 i2 i3 i4 i5)).st ∧
+    ((runFrom c g (iteration i1 i2 i3 i4 i5)).st.pc = .sleep ∨
+      (runFrom c g (iteration i1 i2 i3 i4 i5)).st.pc = .exited .ok) := by
+  obtain ⟨s, b, gh⟩ := g
+  simp only at hpc hle harm hown hdata hsend
+  -- the states after the first four segments
+  let s1 : St := afterLoads s
+  let s2 : St := { s1 with lastSynced := s.env.lastTxn, pc := .beforeSend }
+  let raw : Nat := if c.txn.native then s.env.lastTxn else s.env.lastTxn + 1
+  let s3 : St := { s2 with env := r.env, pc := .sendAfterTxn .loop raw i3.now r.snap }
+  let t : Nat := if r.env.lastTxn < raw then r.env.lastTxn else raw
+  let s4 : St := { s3 with pc := .sendStored .loop t }
+  let blob : Blob := { inst := c.own, ts := i3.now, snap := r.snap }
+  have e1 : go c b s i1 = (s1, b) := by
+    refine go_of_raw ?_ (by simp [s1, afterLoads])
+    rw [goRaw_top hpc]
+    unfold poll; rw [hnone]
+  have hown1 : ¬ (s1.waiting.contains c.own = true) := by
+    intro hc
+    have : c.own ∈ s1.waiting := by simpa using hc
+    exact hown (List.mem_filter.mp this).1
+  have e2 : go c b s1 i2 = (s2, b) := by
+    refine go_of_raw ?_ (by simp [s2])
+    rw [goRaw_beforeInfo (s := s1) rfl, if_pos (Or.inr (show s1.forceArmed = true from harm)),
+      if_neg hown1, if_pos (show s1.hasDataAtStart = true ∨ s1.env.lastTxn > 0 from hdata)]
+    rfl
+  have e3 : go c b s2 i3 = (s3, b) := by
+    refine go_of_raw ?_ (by simp [s3])
+    rw [goRaw_beforeSend (s := s2) rfl]
+    have hsend2 : sendOnce c.txn s2.env i3.now 0 = .ok r := hsend
+    unfold beginSend
+    rw [hsend2]
+    rfl
+  have e4 : go c b s3 i4 = (s4, b ++ [blob]) := by
+    refine go_of_raw ?_ (by simp [s4])
+    rw [goRaw_sendAfterTxn (s := s3) rfl]
+    simp only [hro, Bool.false_eq_true, if_false]
+    rw [if_neg (by omega)]
+  have e5r : goRaw c (b ++ [blob]) s4 i5 = (sendReturned c (stored s4) .loop t, b ++ [blob]) :=
+    goRaw_sendStored (s := s4) rfl
+  have hpc5 : (sendReturned c (stored s4) .loop t).pc = .sleep ∨
+      (sendReturned c (stored s4) .loop t).pc = .exited .ok := by
+    rw [(sendReturned_facts c (stored s4) .loop t).2.2.2.2.2]
+    simp only
+    split
+    · exact Or.inr rfl
+    · exact Or.inl rfl
+  have e5 : go c (b ++ [blob]) s4 i5 = (sendReturned c (stored s4) .loop t, b ++ [blob]) :=
+    go_of_raw e5r (by rcases hpc5 with h | h <;> rw [h] <;> simp)
+  -- the run
+  have hrun := runFrom_gos c ⟨s, b, gh⟩ [i1, i2, i3, i4, i5]
+  simp only [goes, e1, e2, e3, e4, e5] at hrun
+  have hst : (runFrom c ⟨s, b, gh⟩ (iteration i1 i2 i3 i4 i5)).st = sendReturned c (stored s4) .loop t :=
+    congrArg Prod.fst hrun
+  have hbk : (runFrom c ⟨s, b, gh⟩ (iteration i1 i2 i3 i4 i5)).bucket = b ++ [blob] :=
+    congrArg Prod.snd hrun
+  have hlen := ownStores_length c ⟨s, b, gh⟩ (iteration i1 i2 i3 i4 i5)
+  rw [hbk] at hlen
+  have ho : othersOf (iteration i1 i2 i3 i4 i5) = [] := othersOf_gos _
+  rw [ho] at hlen
+  simp only [List.length_append, List.length_cons, List.length_nil] at hlen
+  obtain ⟨f1, f2, _, _, _, _⟩ := sendReturned_facts c (stored s4) .loop t
+  have hfa : (sendReturned c (stored s4) .loop t).forceArmed = false :=
+    (sendReturned_force c (stored s4) .loop t).trans rfl
+  have hLt : r.env.lastTxn ≤ t := by
+    obtain ⟨hn, hL⟩ := sendOnce_facts hsend
+    show r.env.lastTxn ≤ if r.env.lastTxn < raw then r.env.lastTxn else raw
+    cases hnat : c.txn.native with
+    | true =>
+      have : raw = s.env.lastTxn := by simp [raw, hnat]
+      rw [this, hn hnat]; split <;> omega
+    | false =>
+      have : raw = s.env.lastTxn + 1 := by simp [raw, hnat]
+      rw [this]; split <;> omega
+  refine ⟨hbk, by omega, by rw [hst]; exact hfa, ?_, by rw [hst]; exact hpc5⟩
+  rw [hst]
+  refine ⟨?_, hfa⟩
+  unfold Caught
+  rcases hpc5 with h | h <;> rw [h]
+  · show (sendReturned c (stored s4) .loop t).env.lastTxn ≤ (sendReturned c (stored s4) .loop t).lastSynced
+    rw [f1, f2]; exact hLt
+  · trivial
 
 end Ls.Loop
 
